@@ -100,6 +100,26 @@ MUTATIONS = [
     ("tlexport/main.py", "        if len(packet_payload) < 6:", "        if len(packet_payload) < 5:", "handle_quic_packet: 5-byte long header read"),
     ("tlexport/output_builder.py", "        self.default_port = 8080", "        self.default_port = 8081", "OutputBuilder: fallback port"),
     ("tlexport/quic/quic_output_builder.py", "        if keep_original_ports is False:", "        if keep_original_ports is True:", "QUICOutputbuilder: flag inverted"),
+    # group KeySched: key_derivator.py, quic_key_generation.py
+    ("tlexport/key_derivator.py", "    seed = label + server_random + client_random\n\n    a0 = seed\n    secret_block", "    seed = label + client_random + server_random\n\n    a0 = seed\n    secret_block", "prf_tls_12: randoms swapped in the seed"),
+    ("tlexport/key_derivator.py", "    return secret_block[:length]", "    return secret_block[:length - 1]", "prf_tls_12: one byte short", 1),
+    ("tlexport/key_derivator.py", "    s1 = secret[:l_s1]", "    s1 = secret[:l_s1 - 1]", "prf_tls_10_11: first half one byte short"),
+    ("tlexport/key_derivator.py", "        h1 = hmac.HMAC(s2, hashes.SHA1())", "        h1 = hmac.HMAC(s2, hashes.MD5())", "prf_tls_10_11: A(i) of the SHA-1 half computed with MD5"),
+    ("tlexport/key_derivator.py", "            sha1.update(bytes(counter * sec_bits[counter - 1], 'utf-8') + secret + client_random + server_random)", "            sha1.update(bytes(counter * sec_bits[counter - 1], 'utf-8') + secret + server_random + client_random)", "prf_ssl_30: master-secret randoms in key-block order"),
+    ("tlexport/key_derivator.py", "        md5.update(secret + a)", "        md5.update(a + secret)", "prf_ssl_30: MD5 input order"),
+    ("tlexport/key_derivator.py", "    master_secret = (p1 + p2)[:48]", "    master_secret = (p1 + p2)[:32]", "gen_master_secret_tls_12: 32-byte master secret"),
+    ("tlexport/key_derivator.py", "    h.update(a2 + seed)\n    p2 = h.finalize()", "    h.update(a1 + seed)\n    p2 = h.finalize()", "gen_master_secret_tls_12: second block from A(1)"),
+    ("tlexport/key_derivator.py", "    if cipher_algo == ChaCha20Poly1305:\n        iv_length = 12", "    if cipher_algo == ChaCha20Poly1305:\n        iv_length = 8", "dev_tls_12_keys: ChaCha20 IV of 8 bytes"),
+    ("tlexport/key_derivator.py", "        \"server_write_key\": key_block[mac_length * 2 + key_length: mac_length * 2 + key_length * 2],", "        \"server_write_key\": key_block[mac_length * 2: mac_length * 2 + key_length],", "dev_tls_10_11_keys: server key = client key", 0),
+    ("tlexport/key_derivator.py", "    if use_aead:\n        mac_length = 0\n\n    key_block = prf_ssl_30(", "    if use_aead:\n        mac_length = 1\n\n    key_block = prf_ssl_30(", "dev_ssl_30_keys: AEAD flag leaves a 1-byte MAC key"),
+    ("tlexport/key_derivator.py", "    iv_label_len = b'\\x08'", "    iv_label_len = b'\\x09'", "dev_tls_13_keys: wrong label length in the IV info"),
+    ("tlexport/key_derivator.py", "    key_label = b'tls13 key'", "    key_label = b'tls13 kex'", "dev_tls_13_keys: wrong key label"),
+    ("tlexport/quic/quic_key_generation.py", "    lable_len = len(label) + 6", "    lable_len = len(label) + 5", "make_info: label length without the prefix's last byte"),
+    ("tlexport/quic/quic_key_generation.py", "0dede3def700a6db819381be6e269dcbf9bd2ed9", "0dede3def700a6db819381be6e269dcbf9bd2ed8", "dev_initial_keys: v2 salt off by one bit"),
+    ("tlexport/quic/quic_key_generation.py", "    client_initial = HKDFExpand(hash_fun, 32, info=make_info(b\"client in\", 32)).derive(initial_secret)", "    client_initial = HKDFExpand(hash_fun, 32, info=make_info(b\"server in\", 32)).derive(initial_secret)", "dev_initial_keys: client secret from the server label"),
+    ("tlexport/quic/quic_key_generation.py", "    server_n = decryptor_n.keys[4]", "    server_n = decryptor_n.keys[5]", "key_update: server secret taken from the client's"),
+    ("tlexport/quic/quic_key_generation.py", "        hp_info = make_info(b\"quic hp\", key_length)", "        hp_info = make_info(b\"quic hq\", key_length)", "dev_quic_keys: wrong header-protection label"),
+    ("tlexport/quic/quic_key_generation.py", "        \"client_application_sec\": client_application_secret,", "        \"client_application_sec\": server_application_secret,", "dev_quic_keys: client secret entry holds the server's"),
     # group Reasm2: the framing part of extract_*_buf (the two functions are copies: the n-th occurrence of the text)
     ("tlexport/session.py", "            packet_ranges.append((total_packet_len, total_packet_len + packet_len, i))", "            packet_ranges.append((total_packet_len, total_packet_len + packet_len + 1, i))", "extract_server_frame: packet ranges one byte too long", 0),
     ("tlexport/session.py", "            if total_packet_len - index < 5:", "            if total_packet_len - index < 4:", "extract_client_frame: four trailing bytes taken for a record header", 1),
@@ -156,6 +176,9 @@ REWRITES = [
     ("tlexport/session.py", [("        if alert_level == 0x1 and self.tls_version != TlsVersion.TLS13:\n            return\n        self.can_decrypt = False\n        self.client_hello_seen = False\n",
                               "        if not (alert_level == 0x1 and self.tls_version != TlsVersion.TLS13):\n            self.can_decrypt = False\n            self.client_hello_seen = False\n")],
      "handle_alert: early return turned into a guarded block"),
+    ("tlexport/key_derivator.py", [("        secret_block = secret_block + h.finalize()", "        secret_block += h.finalize()")], "prf_tls_12: `x = x + y` written `x += y`"),
+    ("tlexport/key_derivator.py", [("    if use_aead:\n        mac_length = 0\n\n    key_block = prf_tls_12(", "    if use_aead != 0:\n        mac_length = 0\n\n    key_block = prf_tls_12(")], "dev_tls_12_keys: truthiness written `!= 0`"),
+    ("tlexport/key_derivator.py", [("    h = hmac.HMAC(pm_secret, mac())\n    h.update(a1)\n    a2 = h.finalize()\n\n    h = hmac.HMAC(pm_secret, mac())\n    h.update(a1 + seed)\n    p1 = h.finalize()\n", "    h = hmac.HMAC(pm_secret, mac())\n    h.update(a1 + seed)\n    p1 = h.finalize()\n\n    h = hmac.HMAC(pm_secret, mac())\n    h.update(a1)\n    a2 = h.finalize()\n")], "gen_master_secret_tls_12: two independent blocks swapped"),
     ("tlexport/session.py", [("                metadata = []\n                record_len = packet_data[index + 3: index + 5]", "                record_len = packet_data[index + 3: index + 5]\n                metadata = []", 0)],
      "extract_server_frame: two independent statements swapped"),
     ("tlexport/session.py", [("        if self.server_cipher_change and isserver and self.can_decrypt:", "        if isserver and self.server_cipher_change and self.can_decrypt:")], "handle_handshake_finished: operands of `and` reordered"),
@@ -185,6 +208,9 @@ def group_of(what):
         return ["Checksum"]
     if fn in ("parse_frames", "frame_type") or fn.endswith("Frame"):
         return ["Frames"]
+    if fn in ("prf_tls_12", "prf_tls_10_11", "prf_ssl_30", "gen_master_secret_tls_12", "dev_tls_12_keys", "dev_tls_10_11_keys", "dev_ssl_30_keys",
+              "dev_tls_13_keys", "make_info", "dev_initial_keys", "key_update", "dev_quic_keys"):
+        return ["KeySched"]
     if fn in ("extract_server_frame", "extract_client_frame"):
         return ["Reasm2"]
     if fn in ("extract_server_buf", "extract_client_buf") and "next_seq" in what:
